@@ -565,7 +565,7 @@ func init() {
 					u = append(u, fmt.Sprintf("bfs#%d#%d", ii, oi))
 				}
 			}
-			return append(u, "shared-list", "weakeq#SHA256#h1", "weakeq#X509#certA-DER", "weakeq#X509#certB-DER")
+			return append(u, "shared-list", "source-reused", "weakeq#SHA256#h1", "weakeq#X509#certA-DER", "weakeq#X509#certB-DER")
 		},
 		Run: c09Run,
 		Bound: func(tier string) map[string]any {
@@ -580,6 +580,10 @@ func c09Run(c *hx.Ctx, tier, unit string) {
 	parts := strings.Split(unit, "#")
 	if parts[0] == "shared-list" {
 		c09SharedList(c)
+		return
+	}
+	if parts[0] == "source-reused" {
+		c09SourceReused(c)
 		return
 	}
 	if parts[0] == "weakeq" {
@@ -832,5 +836,118 @@ func c09SharedList(c *hx.Ctx) {
 			}
 		}
 		rec(nil)
+	}
+}
+
+// c09SourceReused: a database decoded from a caller's buffer or slice, which the caller then uses for
+// something else (writes the next variable into it, resets and refills it, overwrites the slice).
+// The database is the caller's from then on: its entries, the membership answers and the effect of the
+// next Append / Remove are those of a database decoded from a private copy.
+func c09SourceReused(c *hx.Ctx) {
+	c09Init()
+	c09InitialDup = map[string]int{}
+	enc := refesl.Encode([]refesl.List{
+		refesl.Mk(refesl.SHA256, 48, refesl.Entry{Owner: ownerA, Data: c09Data["h1"]}, refesl.Entry{Owner: ownerB, Data: c09Data["h2"]}),
+		refesl.Mk(refesl.X509, uint32(16+len(c09Data["certA-DER"])), refesl.Entry{Owner: ownerA, Data: c09Data["certA-DER"]})})
+	other := refesl.Encode([]refesl.List{
+		refesl.Mk(refesl.SHA256, 48, refesl.Entry{Owner: ownerB, Data: fill(32, 0x77)}, refesl.Entry{Owner: ownerA, Data: fill(32, 0x78)}),
+		refesl.Mk(refesl.X509, uint32(16+len(c09Data["certB-DER"])), refesl.Entry{Owner: ownerB, Data: c09Data["certB-DER"]})})
+	pristine, err := signature.ReadSignatureDatabase(bytes.NewReader(append([]byte{}, enc...)))
+	if err != nil {
+		c.Note("reference stream does not decode: %v", err)
+		return
+	}
+	wantKey := c09Key(&pristine)
+	type src struct {
+		name string
+		run  func() (*signature.SignatureDatabase, error)
+	}
+	viaBuf := func(unmarshal bool, reuse func(buf *bytes.Buffer, store []byte)) func() (*signature.SignatureDatabase, error) {
+		return func() (*signature.SignatureDatabase, error) {
+			store := append(make([]byte, 0, 4*len(enc)), enc...)
+			buf := bytes.NewBuffer(store)
+			var db signature.SignatureDatabase
+			var err error
+			if unmarshal {
+				err = db.Unmarshal(buf)
+			} else {
+				db, err = signature.ReadSignatureDatabase(buf)
+			}
+			reuse(buf, store[:cap(store)])
+			return &db, err
+		}
+	}
+	reuses := []struct {
+		name string
+		f    func(buf *bytes.Buffer, store []byte)
+	}{
+		{"the next value written into the drained buffer", func(buf *bytes.Buffer, store []byte) { buf.Write(other) }},
+		{"the buffer reset and refilled", func(buf *bytes.Buffer, store []byte) { buf.Reset(); buf.Write(other); buf.Write(other) }},
+		{"another database marshalled into the buffer", func(buf *bytes.Buffer, store []byte) {
+			o, _ := signature.ReadSignatureDatabase(bytes.NewReader(other))
+			o.Marshal(buf)
+		}},
+		{"the underlying array overwritten", func(buf *bytes.Buffer, store []byte) {
+			for i := range store {
+				store[i] = 0xa5
+			}
+		}},
+	}
+	var srcs []src
+	for _, r := range reuses {
+		srcs = append(srcs, src{"Unmarshal from a *bytes.Buffer, then " + r.name, viaBuf(true, r.f)}, src{"ReadSignatureDatabase from a *bytes.Buffer, then " + r.name, viaBuf(false, r.f)})
+	}
+	srcs = append(srcs, src{"ReadSignatureDatabase from a bytes.Reader over a slice, then the slice overwritten", func() (*signature.SignatureDatabase, error) {
+		store := append([]byte{}, enc...)
+		db, err := signature.ReadSignatureDatabase(bytes.NewReader(store))
+		for i := range store {
+			store[i] = 0xa5
+		}
+		return &db, err
+	}})
+	x := &c09Types[1]
+	sh := &c09Types[0]
+	steps := []c09Op{
+		{name: "Remove(SHA256,O1,h1)", kind: "remove", t: sh, own: 0, data: "h1"},
+		{name: "Append(SHA256,O1,h1)", kind: "append", t: sh, own: 0, data: "h1"},
+		{name: "Append(SHA256,O1,h31)", kind: "append", t: sh, own: 0, data: "h31"},
+		{name: "Remove(X509,O1,certA-DER)", kind: "remove", t: x, own: 0, data: "certA-DER"},
+		{name: "Append(X509,O2,certB-DER)", kind: "append", t: x, own: 1, data: "certB-DER"},
+	}
+	for _, sr := range srcs {
+		for si := -1; si < len(steps); si++ {
+			if !c.Next() {
+				continue
+			}
+			var db *signature.SignatureDatabase
+			var err error
+			if pn := hx.Try(func() { db, err = sr.run() }); pn != nil || err != nil {
+				c.Outcome("violation")
+				c.Violation("C09 decoding a well-formed database fails", map[string]any{"source": sr.name, "error": fmt.Sprint(err, pn)})
+				continue
+			}
+			hist := []string{"init: " + sr.name}
+			if got := c09Key(db); got != wantKey {
+				c.Outcome("state-violation")
+				c.Violation("C09 a decoded database changes when the caller goes on using the buffer or slice it was decoded from", map[string]any{"history": hist})
+				continue
+			}
+			if si >= 0 {
+				hist = append(hist, steps[si].name)
+				if v, d, _ := c09Check(db, steps[si]); v != "" {
+					c.Outcome("step-violation")
+					c.Violation("C09 "+v, map[string]any{"history": hist, "detail": d})
+					continue
+				}
+			}
+			if iv, d := c09Invariants(db); iv != "" {
+				c.Outcome("state-violation")
+				c.Violation("C09 state invariant: "+iv, map[string]any{"history": hist, "detail": d})
+				continue
+			}
+			c.Outcome("state-ok")
+			c.Count("transitions", 1)
+			c.Nontrivial([]byte(sr.name), []byte(fmt.Sprint(si)))
+		}
 	}
 }
